@@ -25,3 +25,11 @@ Proof. exact jacobian_rotation_column. Qed.
 Check (eq_refl : geo_col = fun p t j i =>
   let li := List.nth i (chain p j) iid in
   vscale (sgn p i) (vcross (mapp (rot li) (local_axis i)) (vsub (tip p t j) (tr li)))).
+
+(** finite differences: for a step |e| <= 1 (the code uses 1e-7..1e-5) the forward-difference quotient of any coordinate
+    of the tool point differs from the geometric column by at most |e| times the lever arm *)
+From VF Require Import Proofs.JacobianFD.
+Theorem C15_fd_bound : forall p t j (i k : nat) (e : R), (i < 6)%nat -> sg_ok p -> e <> 0 -> Rabs e <= 1 ->
+  Rabs ((vcoord k (tip p t (jset6 j i (jget j i + e))) - vcoord k (tip p t (jset6 j i (jget j i)))) / e - vcoord k (geo_col p t j i))
+  <= Rabs e * vnorm (vsub (tip p t j) (tr (List.nth i (chain p j) iid))).
+Proof. exact jacobian_fd_bound. Qed.
